@@ -158,7 +158,24 @@ func (res *CheckResult) check() {
 		}
 
 		if varDecl.Origin != nil {
+			// a variable is not in scope inside its own origin
+			// (the origin is evaluated before the variable exists)
+			var hidden *parser.VarDeclaration
+			if varDecl.Name != nil {
+				if own, ok := res.declaredVars[varDecl.Name.Name]; ok && own.Name == varDecl.Name {
+					hidden = &own
+					delete(res.declaredVars, varDecl.Name.Name)
+				}
+			}
 			res.checkVarOrigin(*varDecl.Origin, varDecl)
+			if hidden != nil {
+				_, stillUnused := res.unusedVars[varDecl.Name.Name]
+				res.declaredVars[varDecl.Name.Name] = *hidden
+				if !stillUnused {
+					// the (unbound) self reference must not count as a use
+					res.unusedVars[varDecl.Name.Name] = varDecl.Name.Range
+				}
+			}
 		}
 	}
 	for _, statement := range res.Program.Statements {
